@@ -308,6 +308,7 @@ type fileInfo struct {
 	size  int64
 	dir   bool
 	mtime int64
+	pipe  bool
 }
 
 // touch records that a file was written now.
@@ -324,6 +325,9 @@ func (i fileInfo) Size() int64  { return i.size }
 func (i fileInfo) Mode() fs.FileMode {
 	if i.dir {
 		return fs.ModeDir | 0o755
+	}
+	if i.pipe {
+		return fs.ModeNamedPipe | 0o600
 	}
 	return 0o644
 }
@@ -428,6 +432,11 @@ func Chmod(name string, _ fs.FileMode) error {
 
 // Stat mirrors (*os.File).Stat.
 func (f *File) Stat() (fs.FileInfo, error) {
+	if f == Stdin || f == Stdout || f == Stderr {
+		// the standard streams are pipes (as they are when the real binary is
+		// driven by another program): no size is known in advance
+		return fileInfo{name: f.name, pipe: true}, nil
+	}
 	return fileInfo{name: f.name, size: int64(len(f.data)), dir: f.isDir, mtime: w.Mtime[f.name]}, nil
 }
 
